@@ -29,7 +29,7 @@ EXTRA = [
 
 def _corr(mod):
     def f(rng, quick):
-        return mod.run(rng, 25 if quick else 1500, corpus_limit=25 if quick else None)
+        return mod.run(rng, 12 if quick else 1500, corpus_limit=12 if quick else None)
     return f
 
 
@@ -40,7 +40,7 @@ CORR = [("dependency", _corr(corr_dependency)), ("sumagg", _corr(corr_sumagg)), 
 def run(ctx) -> int:
     seven = semcheck.flags_only(*SEVEN)
     rnd = [semcheck.flags_only(*[t for t in SEVEN if ctx.rng.random() < 0.5]) for _ in range(2 if ctx.quick() else 10)]
-    return _generic.run_semantic(ctx, MODULE, LEVEL, RULE, [seven] + rnd, "voc", None, EXTRA, (50, 500), (30, 1500), corr=CORR,
+    return _generic.run_semantic(ctx, MODULE, LEVEL, RULE, [seven] + rnd, "voc", None, EXTRA, (40, 500), (24, 1500), corr=CORR,
                                  n_inst=4, generators=list(tgen.GENERATORS.values()), outp_choices=("auto",), one_to_one=True,
                                  assumptions=("M4's converse (every stable model of the extension is the least-fixpoint extension) is not proved",))
 
